@@ -117,3 +117,20 @@ _t1 = tasks
 def tasks(tier):
     return _t1(tier) + [('pause:' + sn, mk_pause_task(sn)) for sn in MUST_NOT_BE_PAUSED] + [('pause_table', t_pause_table)]
 WORLD = ('marginfi', 'typecrate', 'drift', 'kamino', 'solend')
+
+
+# ---------------------------------------------------------------- shared with C15.c: the group's pause gate reads a cache that must be a verbatim copy of the global pause state
+def t_propagate(world):
+    import specs.C15 as C15
+    out = []
+    for ob in C15.t_handlers(world):
+        if ob.oid == 'C15.c.propagate_fee':
+            ob.oid = 'C14.e.propagate_fee'
+            for c in ob.cex: c['ob'] = ob.oid
+            out.append(ob)
+    return out
+
+
+_t14e = tasks
+def tasks(tier):
+    return _t14e(tier) + [('propagate', t_propagate)]
